@@ -8,6 +8,16 @@
 //!
 //! Second family, `search …` case lines: the command search (yash-env/src/semantics/command/search.rs)
 //! in random environments; see `yverif::prog::search_family`.
+//!
+//! Wave 3, two more families (module `builtin_family` below):
+//! `bi <break|continue|return|exit> <portable 0|1> <$?> <frames, top first: L S C B b D T I, or .> <args: hex,… or .>`
+//! — the real `main` of the built-in on an `Env` with exactly that frame stack (B = special built-in frame,
+//! b = non-special), `$?` and `portable` setting; observation `p=<break::syntax::parse result>
+//! lc=<loop_count(1)>.<loop_count(2)>.<loop_count(usize::MAX)> cb=<current_builtin().is_special> st=<exit status>
+//! dv=<divert>`; oracle: POSIX's reading evaluated on the result (levels never exceed the visible loops nor the
+//! operand; an error interrupts iff the innermost built-in frame is special).
+//! `dv <a> <b>` — `Ord for Divert`: `cmp=<lt|eq|gt> max=<a.max(b)>`; oracle: `max` is one of the two and not
+//! smaller than either.
 
 use yverif::prog::{Gen, parse_case, render, run_case_full, search_family, sx_script};
 use yverif::proto::{Opts, emit, quiet_panics};
@@ -15,7 +25,11 @@ use yverif::rng::Rng;
 
 /// one case of either family
 fn run_one(case: &str) {
-    if case.starts_with("search ") {
+    if case.starts_with("bi ") || case.starts_with("dv ") {
+        let obs = yverif::proto::guarded(|| builtin_family::run(case));
+        let oracle = builtin_family::oracle(case, &obs);
+        emit(case, &obs, &oracle);
+    } else if case.starts_with("search ") {
         let obs = yverif::proto::guarded(|| search_family::run(case));
         let oracle = if obs.starts_with("cl=") { search_family::oracle(&obs) } else { "-".into() };
         emit(case, &obs, &oracle);
@@ -43,6 +57,16 @@ fn main() {
     }
     if only {
         return;
+    }
+    // the control-flow built-ins called directly, and the order of `Divert`
+    let nb = if o.thorough() { 60_000 } else { 3_000 };
+    let mut brng = Rng::new(o.seed ^ 0xB1_B1);
+    for k in 0..nb {
+        let case = if k % 6 == 5 { builtin_family::generate_dv(&mut brng) } else { builtin_family::generate(&mut brng) };
+        if k % o.shard.1 != o.shard.0 {
+            continue;
+        }
+        run_one(&case);
     }
     // the command-search family: the search functions called directly and through a whole shell run
     let ns = if o.thorough() { 60_000 } else { 3_000 };
@@ -77,5 +101,306 @@ fn main() {
         let surface = g.rng.next() % 1000;
         let case = format!("{} {}", surface, sx_script(&lines));
         emit(&case, &run_case_full(&case), "-");
+    }
+}
+
+/// The four control-flow built-ins called directly (yash-builtin/src/{break,continue,return,exit}.rs with
+/// `Stack::loop_count`, `Stack::current_builtin` and common/report.rs behind them), and `Ord for Divert`.
+mod builtin_family {
+    use futures_util::FutureExt;
+    use std::ops::ControlFlow::{Break, Continue};
+    use yash_env::Env;
+    use yash_env::option::{Option::Portable, State::On};
+    use yash_env::semantics::{Divert, ExitStatus, Field};
+    use yash_env::stack::{Builtin, Frame, Stack};
+    use yverif::proto::{dec_str, enc_str};
+    use yverif::rng::Rng;
+
+    const FRAMES: &[u8] = b"LSCBbDTI";
+    /// operands and options: plain numbers, signs, limits of usize / i32, blanks, non-ASCII digits, `--`,
+    /// the options of `return` / `exit` in short, long, abbreviated and grouped form, unknown options
+    const WORDS: &[&str] = &[
+        "1", "2", "3", "1", "2", "0", "00", "01", "007", "+1", "+2", "+0", "-1", "-0", "-2", "+", "-", "", " 1", "1 ",
+        "1x", "x", "0x1", "1.0", "١", "２", "10", "255", "256", "1000", "2147483647", "2147483648", "-2147483648",
+        "-2147483649", "4294967296", "18446744073709551615", "18446744073709551616", "+18446744073709551615",
+        "99999999999999999999999", "99999999999999999999999x", "--", "--", "-n", "-f", "-nn", "-nf", "-x",
+        "--no-return", "--no", "--force", "--f", "--n", "--no-return=1", "--bogus", "-n1",
+    ];
+
+    fn pick<'a, T>(rng: &mut Rng, xs: &'a [T]) -> &'a T {
+        &xs[(rng.next() % xs.len() as u64) as usize]
+    }
+
+    pub fn generate(rng: &mut Rng) -> String {
+        let which = *pick(rng, &["break", "break", "continue", "return", "exit"]);
+        let portable = rng.next() % 5 == 0;
+        let status = *pick(rng, &[0u64, 0, 1, 2, 7, 126, 127, 255, 300]);
+        let mut stack = String::new();
+        // the caller's own frame on top in most cases (as `execute_builtin` leaves it), anything in the rest
+        match rng.next() % 8 {
+            0 => {}
+            1 => stack.push('b'),
+            _ => stack.push('B'),
+        }
+        let depth = rng.next() % 7;
+        for _ in 0..depth {
+            // loops and conditions are the common frames
+            let c = if rng.next() % 10 < 7 { *pick(rng, b"LLLCb") } else { *pick(rng, FRAMES) };
+            stack.push(c as char);
+        }
+        if stack.is_empty() {
+            stack.push('.');
+        }
+        let nargs = *pick(rng, &[0u64, 0, 1, 1, 1, 1, 1, 1, 1, 2, 2, 3]);
+        let mut args = vec![];
+        for _ in 0..nargs {
+            let w = if rng.next() % 3 == 0 { (rng.next() % 5).to_string() } else { pick(rng, WORDS).to_string() };
+            args.push(enc_str(&w));
+        }
+        let args = if args.is_empty() { ".".to_string() } else { args.join(",") };
+        format!("bi {which} {} {status} {stack} {args}", portable as u8)
+    }
+
+    fn gen_divert(rng: &mut Rng) -> String {
+        let opt = |rng: &mut Rng| match rng.next() % 4 {
+            0 => "-".to_string(),
+            _ => pick(rng, &[0u64, 1, 2, 3, 127, 255]).to_string(),
+        };
+        match rng.next() % 6 {
+            0 => format!("Ct{}", rng.next() % 4),
+            1 => format!("Bk{}", rng.next() % 4),
+            2 => format!("R{}", opt(rng)),
+            3 => format!("I{}", opt(rng)),
+            4 => format!("X{}", opt(rng)),
+            _ => format!("A{}", opt(rng)),
+        }
+    }
+
+    pub fn generate_dv(rng: &mut Rng) -> String {
+        let a = gen_divert(rng);
+        let b = if rng.next() % 8 == 0 { a.clone() } else { gen_divert(rng) };
+        format!("dv {a} {b}")
+    }
+
+    fn show_opt(e: Option<ExitStatus>) -> String {
+        match e {
+            None => "-".into(),
+            Some(e) => e.0.to_string(),
+        }
+    }
+
+    fn show_divert(d: Divert) -> String {
+        match d {
+            Divert::Continue { count } => format!("Ct{count}"),
+            Divert::Break { count } => format!("Bk{count}"),
+            Divert::Return(e) => format!("R{}", show_opt(e)),
+            Divert::Interrupt(e) => format!("I{}", show_opt(e)),
+            Divert::Exit(e) => format!("X{}", show_opt(e)),
+            Divert::Abort(e) => format!("A{}", show_opt(e)),
+        }
+    }
+
+    fn parse_opt(t: &str) -> Option<Option<ExitStatus>> {
+        if t == "-" { Some(None) } else { t.parse().ok().map(|n| Some(ExitStatus(n))) }
+    }
+
+    fn parse_divert(t: &str) -> Option<Divert> {
+        if let Some(n) = t.strip_prefix("Ct") {
+            return Some(Divert::Continue { count: n.parse().ok()? });
+        }
+        if let Some(n) = t.strip_prefix("Bk") {
+            return Some(Divert::Break { count: n.parse().ok()? });
+        }
+        let (h, r) = t.split_at(1);
+        let e = parse_opt(r)?;
+        Some(match h {
+            "R" => Divert::Return(e),
+            "I" => Divert::Interrupt(e),
+            "X" => Divert::Exit(e),
+            "A" => Divert::Abort(e),
+            _ => return None,
+        })
+    }
+
+    fn frame_of(c: char) -> Option<Frame> {
+        Some(match c {
+            'L' => Frame::Loop,
+            'S' => Frame::Subshell,
+            'C' => Frame::Condition,
+            'B' => Frame::Builtin(Builtin { name: Field::dummy("special"), is_special: true }),
+            'b' => Frame::Builtin(Builtin { name: Field::dummy("regular"), is_special: false }),
+            'D' => Frame::DotScript,
+            'T' => Frame::Trap(yash_env::trap::Condition::Exit),
+            'I' => Frame::InitFile,
+            _ => return None,
+        })
+    }
+
+    struct Case {
+        which: String,
+        stack: Vec<char>, // top first
+        args: Vec<String>,
+    }
+
+    fn parse_bi(toks: &[&str]) -> Option<(Case, bool, i32)> {
+        let [which, portable, status, stack, args] = toks else { return None };
+        let stack: Vec<char> = if *stack == "." { vec![] } else { stack.chars().collect() };
+        let args = if *args == "." {
+            vec![]
+        } else {
+            args.split(',').map(dec_str).collect::<Option<Vec<_>>>()?
+        };
+        Some((Case { which: which.to_string(), stack, args }, *portable == "1", status.parse().ok()?))
+    }
+
+    pub fn run(case: &str) -> String {
+        let toks: Vec<&str> = case.split(' ').collect();
+        if toks[0] == "dv" {
+            let (Some(a), Some(b)) = (toks.get(1).and_then(|t| parse_divert(t)), toks.get(2).and_then(|t| parse_divert(t)))
+            else {
+                return "bad-case".into();
+            };
+            let c = match a.cmp(&b) {
+                std::cmp::Ordering::Less => "lt",
+                std::cmp::Ordering::Equal => "eq",
+                std::cmp::Ordering::Greater => "gt",
+            };
+            return format!("cmp={c} max={}", show_divert(a.max(b)));
+        }
+        let Some((c, portable, status)) = parse_bi(&toks[1..]) else { return "bad-case".into() };
+        let mut env = Env::new_virtual();
+        if portable {
+            env.options.set(Portable, On);
+        }
+        env.exit_status = ExitStatus(status);
+        let Some(frames) = c.stack.iter().rev().map(|&ch| frame_of(ch)).collect::<Option<Vec<Frame>>>() else {
+            return "bad-case".into();
+        };
+        env.stack = Stack::from(frames);
+        let fields = Field::dummies(c.args.iter().map(|s| s.as_str()));
+        let p = match c.which.as_str() {
+            "break" | "continue" => match yash_builtin::r#break::syntax::parse(&env, fields.clone()) {
+                Ok(n) => format!("ok{n}"),
+                Err(yash_builtin::r#break::syntax::Error::CommonError(_)) => "opt".into(),
+                Err(yash_builtin::r#break::syntax::Error::TooManyOperands(_)) => "many".into(),
+                Err(yash_builtin::r#break::syntax::Error::InvalidNumber(_, e)) => format!("num:{:?}", e.kind()),
+                Err(_) => "other".into(),
+            },
+            _ => "-".into(),
+        };
+        let lc = format!(
+            "{}.{}.{}",
+            env.stack.loop_count(1),
+            env.stack.loop_count(2),
+            env.stack.loop_count(usize::MAX)
+        );
+        let cb = match env.stack.current_builtin() {
+            None => "-",
+            Some(b) if b.is_special => "1",
+            Some(_) => "0",
+        };
+        let before = env.stack.len();
+        let result = match c.which.as_str() {
+            "break" => yash_builtin::r#break::main(&mut env, fields).now_or_never(),
+            "continue" => yash_builtin::r#continue::main(&mut env, fields).now_or_never(),
+            "return" => yash_builtin::r#return::main(&mut env, fields).now_or_never(),
+            "exit" => yash_builtin::exit::main(&mut env, fields).now_or_never(),
+            _ => return "bad-case".into(),
+        };
+        let Some(result) = result else { return "PENDING".into() };
+        if env.stack.len() != before || env.exit_status != ExitStatus(status) {
+            return "ENV-CHANGED".into();
+        }
+        let dv = match result.divert() {
+            Continue(()) => "C".to_string(),
+            Break(d) => show_divert(d),
+        };
+        format!("p={p} lc={lc} cb={cb} st={} dv={dv}", result.exit_status().0)
+    }
+
+    /// the property's own reading, evaluated on the real result
+    pub fn oracle(case: &str, obs: &str) -> String {
+        let toks: Vec<&str> = case.split(' ').collect();
+        let field = |k: &str| obs.split(' ').find_map(|f| f.strip_prefix(k)).map(|s| s.to_string());
+        if toks[0] == "dv" {
+            let (Some(a), Some(b), Some(m)) = (toks.get(1), toks.get(2), field("max=")) else { return "-".into() };
+            let (Some(da), Some(db), Some(dm)) = (parse_divert(a), parse_divert(b), parse_divert(&m)) else {
+                return "-".into();
+            };
+            // severity: the later variant wins whatever the payloads
+            let sev = |d: &Divert| match d {
+                Divert::Continue { .. } => 0,
+                Divert::Break { .. } => 1,
+                Divert::Return(_) => 2,
+                Divert::Interrupt(_) => 3,
+                Divert::Exit(_) => 4,
+                Divert::Abort(_) => 5,
+            };
+            if dm != da && dm != db {
+                return "FAIL:max is neither argument".into();
+            }
+            if sev(&dm) < sev(&da) || sev(&dm) < sev(&db) {
+                return "FAIL:the less severe divert won".into();
+            }
+            return "ok".into();
+        }
+        let Some((c, _, status)) = parse_bi(&toks[1..]) else { return "-".into() };
+        let (Some(st), Some(dv)) = (field("st="), field("dv=")) else { return "-".into() };
+        // loops visible from the top: through loops, conditions and built-ins, up to anything else
+        let visible = c.stack.iter().take_while(|ch| matches!(ch, 'L' | 'C' | 'B' | 'b')).filter(|ch| **ch == 'L').count();
+        let special = c.stack.iter().find(|ch| matches!(ch, 'B' | 'b')) == Some(&'B');
+        let plain = |w: &String| !w.is_empty() && w.len() < 10 && w.bytes().all(|b| b.is_ascii_digit());
+        let well_formed = c.args.is_empty() || (c.args.len() == 1 && plain(&c.args[0]));
+        let operand: Option<usize> = c.args.first().and_then(|w| w.parse().ok());
+        let error = |what: &str| {
+            let want = if special { "I-" } else { "C" };
+            if dv != want { format!("FAIL:{what}: divert {dv}, expected {want}") } else { "ok".to_string() }
+        };
+        match c.which.as_str() {
+            "break" | "continue" => {
+                let tag = if c.which == "break" { "Bk" } else { "Ct" };
+                if let Some(k) = dv.strip_prefix(tag).and_then(|k| k.parse::<usize>().ok()) {
+                    if st != "0" {
+                        return "FAIL:a successful break/continue has a non-zero status".into();
+                    }
+                    if k + 1 > visible {
+                        return "FAIL:more levels than visible loops".into();
+                    }
+                    if well_formed {
+                        let n = operand.unwrap_or(1);
+                        if n == 0 || k + 1 != n.min(visible) {
+                            return "FAIL:levels are not min(operand, visible loops)".into();
+                        }
+                    }
+                    "ok".into()
+                } else if well_formed && operand != Some(0) && visible > 0 {
+                    "FAIL:a well-formed break/continue inside a loop failed".into()
+                } else if st == "0" {
+                    "FAIL:an error with status 0".into()
+                } else {
+                    error("error of break/continue")
+                }
+            }
+            _ => {
+                let tag = if c.which == "return" { "R" } else { "X" };
+                if well_formed {
+                    let want = format!("{tag}{}", c.args.first().map(|w| w.parse::<u64>().unwrap().to_string()).unwrap_or("-".into()));
+                    if dv != want || st != status.to_string() {
+                        return format!("FAIL:expected {want} with $? kept");
+                    }
+                    "ok".into()
+                } else if dv.starts_with(tag)
+                    || (dv == "C" && c.which == "return" && c.args.iter().any(|a| a.starts_with('-') && a.contains('n')))
+                {
+                    // options (`-n`/`--no-return` in any spelling: no divert, any status; `-f`; `--`) or a sign:
+                    // decided by the model
+                    "ok".into()
+                } else if st != "2" {
+                    "FAIL:a syntax error must have status 2".into()
+                } else {
+                    error("syntax error")
+                }
+            }
+        }
     }
 }
